@@ -964,13 +964,23 @@ func callBuiltin(caller *frame, callpos token.Pos, fn *ssa.Builtin, args []value
 		if len(args) == 1 {
 			return args[0]
 		}
+		var tail []value
 		if isStringish(args[1]) {
 			// append([]byte, ...string) []byte
-			arg0 := args[0].([]value)
-			return append(arg0, strElems(args[1])...)
+			tail = strElems(args[1])
+		} else {
+			// append([]T, ...[]T) []T
+			tail = args[1].([]value)
 		}
-		// append([]T, ...[]T) []T
-		return append(args[0].([]value), args[1].([]value)...)
+		arg0 := args[0].([]value)
+		if caller != nil && len(tail) > 0 && len(arg0)+len(tail) <= cap(arg0) {
+			// in-place append: writes into the existing backing array
+			full := arg0[:len(arg0)+len(tail)]
+			for k := len(arg0); k < len(full); k++ {
+				caller.i.noteStore(&full[k])
+			}
+		}
+		return append(arg0, tail...)
 
 	case "copy": // copy([]T, []T) int or copy([]byte, string) int
 		src := args[1]
@@ -979,8 +989,10 @@ func callBuiltin(caller *frame, callpos token.Pos, fn *ssa.Builtin, args []value
 		}
 		dst := args[0].([]value)
 		n := copy(dst, src.([]value))
-		if caller != nil && n > 0 {
-			caller.i.noteStore(&dst[0])
+		if caller != nil {
+			for k := 0; k < n; k++ {
+				caller.i.noteStore(&dst[k])
+			}
 		}
 		return n
 
